@@ -1,10 +1,10 @@
 (* Statement pins for C20: each property theorem is re-checked against the statement recorded here, so
    a theorem cannot be weakened in its own file without this file failing to compile. *)
 From BT Require Import Base.Util.
-From BT Require Model.PyArrays Proofs.PyArraysCover Proofs.PyArraysBed Properties.C20.
+From BT Require Model.PyArrays Proofs.PyArraysCover Proofs.PyArraysBed Proofs.PyArraysZoom Properties.C20.
 
 Module PinC20.
-Import Model.PyArrays Proofs.PyArraysCover Proofs.PyArraysBed Properties.C20.
+Import Model.PyArrays Proofs.PyArraysCover Proofs.PyArraysBed Proofs.PyArraysZoom Properties.C20.
 Local Open Scope Z_scope.
 Check (C20_bin_index_spec : forall pos span bins, 0 <= pos < span -> 0 < bins ->
   let k := bin_index pos span bins in
@@ -44,4 +44,44 @@ Check (C20_oob : forall touch len vals ents s e st missing oob,
                 /\ forall k, 0 <= k < bins ->
                      s + bin_edge k (e - s) bins < 0 \/ len < s + bin_edge (k + 1) (e - s) bins ->
                      nth (Z.to_nat k) cw ONaN = out_of_fl oob /\ nth (Z.to_nat k) cb ONaN = out_of_fl oob).
+Check (C20_zoom_bins : forall touch len recs s e bins st missing oob,
+  zoom_ok 0 len recs -> s < e -> 0 < bins <= e - s ->
+  values_wig_zoom touch len recs s e bins st missing oob
+    = Ok (map (fun k => zoom_cell zmean recs len st missing oob
+                          (s + bin_edge k (e - s) bins) (s + bin_edge (k + 1) (e - s) bins))
+              (seqZ 0 (Z.to_nat bins)))
+  /\ values_bed_zoom touch len recs s e bins st missing oob
+    = Ok (map (fun k => zoom_cell zmean0 recs len st missing oob
+                          (s + bin_edge k (e - s) bins) (s + bin_edge (k + 1) (e - s) bins))
+              (seqZ 0 (Z.to_nat bins)))).
+Check (C20_zoom_step_function : forall touch len recs s e bins st missing oob,
+  zoom_ok 0 len recs -> s < e -> 0 < bins <= e - s ->
+  values_wig_zoom touch len recs s e bins st missing oob
+    = values_wig len (map (zwv false st) recs) s e (Some bins) st missing oob
+  /\ values_bed_zoom touch len recs s e bins st missing oob
+    = values_wig len (map (zwv true st) recs) s e (Some bins) st missing oob).
+Check (C20_zoom_missing : forall mval recs len st missing oob lo hi, 0 <= lo -> hi <= len ->
+  (forall z, In z recs -> zov lo hi z <= 0) ->
+  zoom_cell mval recs len st missing oob lo hi = out_of_fl missing).
+Check (C20_zoom_nan_free : forall touch len recs s e bins st m o,
+  zoom_ok 0 len recs -> s < e -> 0 < bins <= e - s ->
+  exists cw cb, values_wig_zoom touch len recs s e bins st (FV m) (FV o) = Ok cw
+             /\ values_bed_zoom touch len recs s e bins st (FV m) (FV o) = Ok cb
+             /\ Forall (fun c => exists n d, c = OQ n d /\ 0 < d) cw
+             /\ Forall (fun c => exists n d, c = OQ n d /\ 0 < d) cb).
+Check (C20_zoom_oob : forall touch len recs s e bins st missing oob,
+  zoom_ok 0 len recs -> s < e -> 0 < bins <= e - s ->
+  exists cw cb, values_wig_zoom touch len recs s e bins st missing oob = Ok cw
+             /\ values_bed_zoom touch len recs s e bins st missing oob = Ok cb
+             /\ forall k, 0 <= k < bins ->
+                  s + bin_edge k (e - s) bins < 0 \/ len < s + bin_edge (k + 1) (e - s) bins ->
+                  nth (Z.to_nat k) cw ONaN = out_of_fl oob /\ nth (Z.to_nat k) cb ONaN = out_of_fl oob).
+Check (C20_fetch_clamp : forall s e len p,
+  let '(fs, fe) := clamp s e len in
+  0 <= fs /\ 0 <= fe /\ (fs <= p < fe <-> (s <= p < e /\ 0 <= p < len))).
+Check (C20_oob_layout : forall s e len nbins oob arr, s < e -> 0 < nbins <= e - s -> length arr = Z.to_nat nbins ->
+  oob_fill s e len nbins oob arr
+  = Ok (map (fun k => if (s + bin_edge k (e - s) nbins <? 0) || (len <? s + bin_edge (k + 1) (e - s) nbins)
+                      then out_of_fl oob else nth (Z.to_nat k) arr ONaN)
+            (seqZ 0 (Z.to_nat nbins)))).
 End PinC20.
